@@ -83,20 +83,6 @@ func altProduct(f *m.F) int {
 	return n
 }
 
-func stripExtras(f *m.F) {
-	for _, s := range f.Sub {
-		stripExtras(s)
-	}
-	for i := range f.PC {
-		f.PC[i].Extra = nil
-		for _, c := range f.PC[i].Cs {
-			if c.Body != nil {
-				stripExtras(c.Body)
-			}
-		}
-	}
-}
-
 // stripAlternations puts the plain property back where a key holds a path with `|`, keeping keys unique.
 func stripAlternations(f *m.F) {
 	for _, s := range f.Sub {
@@ -215,10 +201,6 @@ func genC07(t *rapid.T) c07Case {
 		// reaches 10^4 bodies and a compilation that does not return within minutes (DESIGN section 11). Such a case
 		// can only end as a time-out, which decides nothing: alternations are taken out of the keys of that one body.
 		if thorough {
-			if body.Cost() > 120 { // the companion constraints added above are conjuncts: inside `or` they multiply too
-				stripExtras(body)
-				c.Stripped++
-			}
 			if est := body.Cost() * altProduct(body); est > 2000 || est < 0 {
 				stripAlternations(body)
 				c.Stripped++
